@@ -192,27 +192,25 @@ func (v *Version) Compare(other *Version) int {
 		return compareInt(v.patch, other.patch)
 	}
 
-	// Handle pseudo-version comparison
-	if v.pseudo != nil && other.pseudo != nil {
-		return v.pseudo.timestamp.Compare(other.pseudo.timestamp)
-	}
-	if v.pseudo != nil && other.pseudo == nil {
-		// Pseudo-versions are pre-release, so they come before releases
-		if other.prerelease == "" {
-			return -1
-		}
-		// Compare with prerelease
-		return comparePrerelease("pseudo", other.prerelease)
-	}
-	if v.pseudo == nil && other.pseudo != nil {
-		if v.prerelease == "" {
-			return 1
-		}
-		return comparePrerelease(v.prerelease, "pseudo")
-	}
+	// Compare prerelease according to semver rules. A pseudo-version is ordered exactly
+	// as its semver spelling: its prerelease is the text between the first '-' and the
+	// build metadata (e.g. "0.20170915032832-14c0d48ead0c").
+	return comparePrerelease(v.prereleaseText(), other.prereleaseText())
+}
 
-	// Compare prerelease according to semver rules
-	return comparePrerelease(v.prerelease, other.prerelease)
+// prereleaseText returns the semver prerelease of the version, also for pseudo-versions
+func (v *Version) prereleaseText() string {
+	if v.pseudo == nil {
+		return v.prerelease
+	}
+	text := strings.TrimSpace(v.original)
+	if plus := strings.Index(text, "+"); plus != -1 {
+		text = text[:plus]
+	}
+	if dash := strings.Index(text, "-"); dash != -1 {
+		return text[dash+1:]
+	}
+	return ""
 }
 
 // String returns the string representation of the version
@@ -232,6 +230,9 @@ func compareInt(a, b int) int {
 }
 
 // comparePrerelease returns -1, 0, or 1 comparing prereleases where empty string (release) > any prerelease
+// Identifiers are compared left to right as SemVer 2.0.0 specifies: identifiers consisting
+// of digits numerically and below alphanumeric ones, alphanumeric ones in ASCII order, and a
+// longer list wins when all preceding identifiers are equal.
 func comparePrerelease(a, b string) int {
 	// No prerelease (release) has higher precedence than prerelease
 	if a == "" && b == "" {
@@ -244,23 +245,48 @@ func comparePrerelease(a, b string) int {
 		return -1
 	}
 
-	// Special handling for pseudo-versions
-	if a == "pseudo" && b != "pseudo" {
-		return -1
-	}
-	if a != "pseudo" && b == "pseudo" {
-		return 1
-	}
-	if a == "pseudo" && b == "pseudo" {
-		return 0
+	aParts := strings.Split(a, ".")
+	bParts := strings.Split(b, ".")
+
+	for i := 0; i < len(aParts) && i < len(bParts); i++ {
+		aIsNum := isNumericIdentifier(aParts[i])
+		bIsNum := isNumericIdentifier(bParts[i])
+
+		switch {
+		case aIsNum && bIsNum:
+			// Numeric identifiers of any length: more digits (without leading zeros) is larger
+			aNum := strings.TrimLeft(aParts[i], "0")
+			bNum := strings.TrimLeft(bParts[i], "0")
+			if len(aNum) != len(bNum) {
+				return compareInt(len(aNum), len(bNum))
+			}
+			if cmp := strings.Compare(aNum, bNum); cmp != 0 {
+				return cmp
+			}
+		case aIsNum:
+			return -1 // Numeric identifiers have lower precedence
+		case bIsNum:
+			return 1
+		default:
+			if cmp := strings.Compare(aParts[i], bParts[i]); cmp != 0 {
+				return cmp
+			}
+		}
 	}
 
-	// Lexicographic comparison for prereleases
-	if a < b {
-		return -1
+	// A larger set of identifiers has higher precedence
+	return compareInt(len(aParts), len(bParts))
+}
+
+// isNumericIdentifier reports whether a prerelease identifier consists of digits only
+func isNumericIdentifier(s string) bool {
+	if s == "" {
+		return false
 	}
-	if a > b {
-		return 1
+	for _, r := range s {
+		if r < '0' || r > '9' {
+			return false
+		}
 	}
-	return 0
+	return true
 }
